@@ -524,6 +524,7 @@ def run(ck, facts):
     ck.rule("R9", "C++ writer adapter: _grow resizes to the requested size then publishes cap = length() and a fresh buf; _flush trims to len; WriteFromString starts with len = cap = length()")
     import c02
     c02.cpp_writer_rules(ck, "R9")
+    c02.cpp_write_return_rules(ck, "R9", facts)
 
 
 def run_thorough(ck, facts):
